@@ -412,7 +412,10 @@ class FileModel(VModel):
             def read(I2, b, a, k):
                 I2.st.trusted_used.add('file.seek(a); file.read(k): returns the k bytes of the file from offset a (fewer at end of file)')
                 n = lib.unopt(I2, a[0]).t
-                return VStr(z3.SubString(self.content, self.pos, n), True)
+                start = self.pos
+                avail = z3.Length(self.content) - start
+                self.pos = start + z3.If(n < avail, n, z3.If(avail > 0, avail, 0))     # reading advances the file position
+                return VStr(z3.SubString(self.content, start, n), True)
             return VFunc('file.read', impl=read)
         raise Unsupported('file.%s' % name)
 
@@ -550,8 +553,12 @@ def s_make_file_ranges(I):
     return None
 
 
+def sf_replay(model, ob):
+    return "import os, re, sys, tempfile\nfrom circuits.web import tools, wrappers\nfrom circuits.web.headers import Headers\nclass S:\n    def getpeername(self): return ('127.0.0.1', 1)\n    def getsockname(self): return ('127.0.0.1', 2)\ndata = bytes(range(200))\nfd, path = tempfile.mkstemp(); os.write(fd, data); os.close(fd)\nbad = []\ndef serve(rng, proto=(1, 1)):\n    req = wrappers.Request(S(), 'GET', 'http', '/f', proto, '', headers=Headers([('Host', 'localhost:80')] + ([('Range', rng)] if rng else [])))\n    res = wrappers.Response(req, 'utf-8')\n    out = tools.serve_file(req, res, path, type='application/octet-stream')\n    return req, res, out\ntry:\n    for rng, want in (('bytes=0-0', (0, 1)), ('bytes=5-14', (5, 15)), ('bytes=190-', (190, 200)), ('bytes=-7', (193, 200)), ('bytes=150-999', (150, 200))):\n        req, res, out = serve(rng)\n        body = res.body if isinstance(res.body, bytes) else b''.join(x if isinstance(x, bytes) else x.encode() for x in res.body)\n        a, b = want\n        cr = 'bytes %d-%d/%d' % (a, b - 1, len(data))\n        if res.status != 206 or res.headers.get('Content-Range') != cr or int(res.headers.get('Content-Length')) != b - a or body != data[a:b]:\n            bad.append('%s: status %s, Content-Range %r, Content-Length %r, body == FILE[%d:%d]: %r' % (rng, res.status, res.headers.get('Content-Range'), res.headers.get('Content-Length'), a, b, body == data[a:b]))\n    for rng in ('bytes=0-9,20-29', 'bytes=0-9,5-14', 'bytes=50-59,0-9', 'bytes=100-109,-10,0-9', 'bytes=20-29,20-28'):\n        req, res, out = serve(rng)\n        if res.status != 206:\n            bad.append('%s: status %s' % (rng, res.status)); continue\n        raw = b''.join(x if isinstance(x, bytes) else x.encode('latin-1') for x in res.body)\n        parts = re.findall(rb'Content-range: bytes (\\d+)-(\\d+)/(\\d+)\\r\\n\\r\\n', raw)\n        pos = 0\n        for m in re.finditer(rb'Content-range: bytes (\\d+)-(\\d+)/(\\d+)\\r\\n\\r\\n', raw):\n            a, b, n = int(m.group(1)), int(m.group(2)) + 1, int(m.group(3))\n            got = raw[m.end():m.end() + (b - a)]\n            if got != data[a:b] or n != len(data) or not raw[m.end() + (b - a):].startswith(b'\\r\\n--'):\n                bad.append('%s: part announced as bytes %d-%d carries %r..., FILE has %r...' % (rng, a, b - 1, got[:6], data[a:b][:6]))\n    req, res, out = serve('bytes=500-600')\n    if res.headers.get('Content-Range') != 'bytes */200':\n        bad.append('unsatisfiable range: Content-Range %r' % res.headers.get('Content-Range'))\n    req, res, out = serve('bytes=0-9', (1, 0))\n    if res.status == 206 or int(res.headers.get('Content-Length')) != 200:\n        bad.append('HTTP/1.0: partial content answered (%s, %r)' % (res.status, res.headers.get('Content-Length')))\nfinally:\n    os.unlink(path)\nfor b in bad[:6]: print(b)\nsys.exit(1 if bad else 0)\n"
+
+
 SPECS.append(FucSpec(
-    'C16', 'circuits/web/tools.py', 'serve_file', sf_setup, sf_post,
+    'C16', 'circuits/web/tools.py', 'serve_file', sf_setup, sf_post, replay=sf_replay,
     fields={'status': Int},
     calls={'os.path.isabs': uf('isabs', Bool), 'os.stat': s_stat, 'stat.S_ISDIR': uf('S_ISDIR', Bool), 'notfound': s_notfound,
            'formatdate': lambda I, r, a, k: VStr(core.fresh('http_date', z3.StringSort())), 'validate_since': s_validate_since,
@@ -567,3 +574,68 @@ SPECS.append(FucSpec(
     clause='serve_file: a single satisfiable range is answered 206 with Content-Range "bytes a-(b-1)/size", Content-Length b-a and '
            'exactly the bytes FILE[a:b]; no satisfiable range -> 416 with "bytes */size"; no (or ignored) Range header or HTTP/1.0 -> '
            'the whole file with its size; several ranges -> 206 multipart (generator body not decided)'))
+
+
+# ----------------------------------------------------------------------------- serve_file.<locals>.file_ranges (multipart/byteranges body)
+# The nested generator is verified as its own FUC; the variables it captures from serve_file are explicit ghost parameters.
+def fr_setup(I):
+    g = I.st.ghost
+    g['FILE'] = core.fresh('file_content', z3.StringSort())
+    n = core.fresh('c_len', z3.IntSort())
+    I.assume(z3.And(n >= 0, z3.Length(g['FILE']) == n))
+    g['C_LEN'] = n
+    rs = []
+    for k in range(2):       # two parts; the parts are independent of each other (no invariant links them): the body of the loop is
+        a, b = core.fresh('ra%d' % k, z3.IntSort()), core.fresh('rb%d' % k, z3.IntSort())      # checked for an arbitrary pair, in any order / overlap
+        I.assume(z3.And(0 <= a, a < b, b <= n), 'ranges as get_ranges returns them')
+        rs.append((a, b))
+    g['RANGES'] = rs
+    g['BOUNDARY'] = core.fresh('boundary', z3.StringSort())
+    g['TYPE'] = core.fresh('ctype', z3.StringSort())
+    g['BODYFILE'] = FileModel(g['FILE'])
+    I.st.inputs['ranges'] = [x for ab in rs for x in ab]
+    return {}
+
+
+def fr_yield(I, v):
+    log(I, 'YIELDS').append(v)
+    return NONE
+
+
+def log(I, n):
+    return I.st.ghost.setdefault(n, [])
+
+
+def fr_post(I, outcome, ctx):
+    kind, v = outcome
+    if kind == 'raise':
+        I.oblige('no_escape', z3.BoolVal(False), detail='escaping %s' % v.cls)
+        return
+    cover(I, 'return')
+    g = I.st.ghost
+    ys = log(I, 'YIELDS')
+    rs, n, bnd, ty = g['RANGES'], g['C_LEN'], g['BOUNDARY'], g['TYPE']
+    SV = z3.StringVal
+    want = [SV('\r\n')]
+    for a, b in rs:
+        want += [z3.Concat(SV('--'), bnd), z3.Concat(SV('\r\nContent-type: '), ty),
+                 z3.Concat(SV('\r\nContent-range: bytes '), lib.int_to_str(a), SV('-'), lib.int_to_str(b - 1), SV('/'), lib.int_to_str(n), SV('\r\n\r\n')),
+                 z3.SubString(g['FILE'], a, b - a), SV('\r\n')]
+    want += [z3.Concat(SV('--'), bnd, SV('--')), SV('\r\n')]
+    I.oblige('multipart.number_of_pieces', z3.BoolVal(len(ys) == len(want)), detail='%d pieces yielded, %d expected' % (len(ys), len(want)))
+    names = {3: 'content_range_line_matches_the_part', 4: 'part_is_exactly_the_requested_bytes'}
+    for k, (y, w) in enumerate(zip(ys, want)):
+        y = lib.unopt(I, y)
+        pos = (k - 1) % 5 + 1 if 1 <= k <= 5 * len(rs) else 0
+        nm = names.get(pos if pos in (3, 4) else -1, 'framing_piece')
+        I.oblige('multipart.%s' % nm, z3.BoolVal(isinstance(y, VStr)) if not isinstance(y, VStr) else y.t == w,
+                 detail='piece %d of the multipart body' % k)
+
+
+SPECS.append(FucSpec(
+    'C16', 'circuits/web/tools.py', 'serve_file.<locals>.file_ranges', fr_setup, fr_post,
+    env={'r': lambda I: VCList([VTuple([VInt(a), VInt(b)]) for a, b in I.st.ghost['RANGES']]), 'boundary': lambda I: VStr(I.st.ghost['BOUNDARY']),
+         'type': lambda I: VStr(I.st.ghost['TYPE']), 'c_len': lambda I: VInt(I.st.ghost['C_LEN']), 'bodyfile': lambda I: I.st.ghost['BODYFILE']},
+    on_yield=fr_yield, cover=['return'], replay=lambda model, ob: sf_replay(model, ob),
+    clause='multipart/byteranges body of serve_file: for every part, whatever the order or overlap of the ranges, the Content-range line is '
+           '"bytes a-(b-1)/size" and the bytes that follow are exactly FILE[a:b]; boundaries and terminator as RFC 7233 appendix A'))
